@@ -23,6 +23,12 @@ class Violation(Exception):
   pass
 
 
+class CaseHang(BaseException):
+  """Raised by the per-case wall-clock alarm inside whatever is running (e.g. a
+  non-yielding infinite loop in the code under test).  Never a verdict: the case
+  is reported as hung (inconclusive) and the worker carries on."""
+
+
 class CaseResult(object):
   """What one executed case reports back."""
   __slots__ = ('sig', 'nontrivial', 'obligations', 'violations', 'classes',
@@ -146,6 +152,13 @@ def worker_main(argv):
     budget = check.QUICK_WALL if a.tier == 'quick' else check.THOROUGH_WALL
     budget = float(os.environ.get('VERIF_WALL', budget))
     idxs = [a.only] if a.only is not None else range(si, n, sn)
+    import signal
+
+    def _alarm(signum, frame):
+      raise CaseHang()
+    signal.signal(signal.SIGALRM, _alarm)
+    case_limit = float(os.environ.get('VERIF_CASE_LIMIT', 45 if a.tier == 'quick' else 180))
+    out['hung'] = []
     for idx in idxs:
       if boot.REAL_MONO() - t0 > budget and a.only is None:
         out['cut_short'] = True
@@ -153,7 +166,17 @@ def worker_main(argv):
       rng = case_rng(a.prop, a.seed, idx)
       if env is not None:
         env.begin_case(rng)
-      res = check.run_case(env, rng, idx, a.tier)
+      signal.setitimer(signal.ITIMER_REAL, case_limit)
+      try:
+        res = check.run_case(env, rng, idx, a.tier)
+      except CaseHang:
+        out['hung'].append(idx)
+        if len(out['hung']) >= 3:
+          out['cut_short'] = True
+          break
+        continue
+      finally:
+        signal.setitimer(signal.ITIMER_REAL, 0)
       out['evaluations'] += 1
       out['obligations'] += res.obligations
       if res.nontrivial and res.sig is not None:
@@ -307,6 +330,9 @@ def runner_main(argv):
       problems.append('worker error: ' + r['error'][-1500:])
     for c in r.get('canary_errors', []):
       problems.append('oracle canary failed: ' + c)
+    if r.get('hung'):
+      problems.append('case(s) %r did not finish within the per-case wall-clock limit (hung or looping code under '
+                      'test?); not a verdict' % (r['hung'][:5],))
     ev += r['evaluations']
     obligations += r['obligations']
     events += r.get('events', 0)
